@@ -5,7 +5,13 @@
      PING ECHO GET SET DEL INCR APPEND LPUSH LRANGE LLEN HSET HGET SADD SISMEMBER ZADD ZCARD
      MULTI EXEC DISCARD WATCH UNWATCH CONFIG <unknown subcommand>  PUBLISH-family / HELLO / RESET stubs
      and any other name (Command::Unknown).
-   The keyspace is an association list from key bytes to values (first match wins); no expiry.
+   The keyspace is an association list from key bytes to values (first match wins), an association
+   list of deadlines and a clock (CommandExecutor: data, expirations, current_time).  The clock is
+   part of the state and is set from outside before a command runs (ShardMessage carries the
+   virtual time; after repair C04-fast-path-stale-clock EVERY entry path - Command, Fast*, Pooled*,
+   FastBatch* - evaluates expiry at the current time).  A key whose deadline has passed is absent for
+   every reader and writer; readers leave it in place (the code drops it lazily, which only DEL of
+   such a key could observe - the harnesses never send that).
    Keys are compared as raw bytes: the lossy UTF-8 conversion of keys by the generic path is NOT
    modelled (the harnesses use at most one key that is not valid UTF-8, and none equal to its lossy
    image, so key identity is preserved).  Command names are ASCII (to_uppercase on ASCII only).
@@ -22,7 +28,6 @@ Inductive mval :=
 | VSet (m : list bytes)
 | VZSet (z : list (bytes * Z)).
 
-Notation store := (list (bytes * mval)) (only parsing).
 
 Fixpoint lookup {A} (k : bytes) (s : list (bytes * A)) : option A :=
   match s with
@@ -43,11 +48,34 @@ Fixpoint insert {A} (k : bytes) (v : A) (s : list (bytes * A)) : list (bytes * A
 Fixpoint mem (x : bytes) (l : list bytes) : bool :=
   match l with [] => false | y :: t => bytes_eqb x y || mem x t end.
 
+Record mstate := mkM {
+  now : N;                          (* current_time, milliseconds *)
+  data : list (bytes * mval);
+  exps : list (bytes * N)           (* expirations: key -> deadline *)
+}.
+Notation store := mstate (only parsing).
+Definition m0 : mstate := mkM 0 [] [].
+(* is_expired: `expiration <= current_time` *)
+Definition expired (s : mstate) (k : bytes) : bool :=
+  match lookup k (exps s) with Some d => (d <=? now s)%N | None => false end.
+(* get_value: what a command sees under key k *)
+Definition vget (s : mstate) (k : bytes) : option mval := if expired s k then None else lookup k (data s).
+(* get_value_mut / the `if self.is_expired(key) { remove }` prologue of the writers *)
+Definition purge (s : mstate) (k : bytes) : mstate :=
+  if expired s k then mkM (now s) (remove k (data s)) (remove k (exps s)) else s.
+Definition put (s : mstate) (k : bytes) (v : mval) : mstate := mkM (now s) (insert k v (data s)) (exps s).
+Definition put_fresh (s : mstate) (k : bytes) (v : mval) : mstate :=
+  mkM (now s) (insert k v (data s)) (remove k (exps s)).
+Definition put_px (s : mstate) (k : bytes) (v : mval) (px : N) : mstate :=
+  mkM (now s) (insert k v (data s)) (insert k (now s + px)%N (exps s)).
+Definition at_time (s : mstate) (t : N) : mstate := mkM t (data s) (exps s).
+
 Inductive mcmd :=
 | CPing (m : option bytes)
 | CEcho (m : bytes)
 | CGet (k : bytes)
 | CSet (k v : bytes)
+| CSetPx (k v : bytes) (px : N)      (* SET k v PX px, px > 0 *)
 | CDel (ks : list bytes)
 | CIncr (k : bytes)
 | CAppend (k v : bytes)
@@ -133,6 +161,11 @@ Definition mdecode (v : resp) : mcmd + bytes :=
       else match args with
            | [RBulk k; RBulk x] => inl (CSet k x)
            | [_; _] => EXPECTED_BULK
+           | [RBulk k; RBulk x; RBulk o; RBulk n] =>
+             match parse_i64 n with
+             | Some z => if is (upper o) "PX" && (0 <? z)%Z then inl (CSetPx k x (Z.to_N z)) else E "unmodelled"
+             | None => E "unmodelled"
+             end
            | _ => E "unmodelled"
            end
     else if is n "DEL" then
@@ -202,12 +235,13 @@ Definition lrange (l : list bytes) (start stop : Z) : list bytes :=
   if ((stop <? start) || (len <=? start))%Z then []
   else firstn (Z.to_nat (stop - start + 1)) (skipn (Z.to_nat start) l).
 
+(* execute_del: `data.remove(key).is_some()` counts, `expirations.remove(key)` *)
 Fixpoint del_keys (s : store) (ks : list bytes) : store * nat :=
   match ks with
   | [] => (s, 0)
   | k :: t =>
-    let hit := match lookup k s with Some _ => 1 | None => 0 end in
-    let '(s', n) := del_keys (remove k s) t in (s', hit + n)
+    let hit := match lookup k (data s) with Some _ => 1 | None => 0 end in
+    let '(s', n) := del_keys (mkM (now s) (remove k (data s)) (remove k (exps s))) t in (s', hit + n)
   end.
 Fixpoint hset_all (h : list (bytes * bytes)) (ps : list (bytes * bytes)) : list (bytes * bytes) * nat :=
   match ps with
@@ -249,81 +283,88 @@ Definition mexec (s : store) (c : mcmd) : store * resp :=
   | CPing (Some m) => (s, RBulk m)
   | CEcho m => (s, RBulk m)
   | CGet k =>
-    match lookup k s with
+    match vget s k with
     | Some (VStr x) => (s, RBulk x)
     | Some _ => (s, WRONGTYPE)
     | None => (s, RNilBulk)
     end
-  | CSet k x => (insert k (VStr x) s, RSimple (str "OK"))
+  | CSet k x => (put_fresh s k (VStr x), RSimple (str "OK"))
+  | CSetPx k x px => (put_px s k (VStr x) px, RSimple (str "OK"))
   | CDel ks => let '(s', n) := del_keys s ks in (s', nat_int n)
   | CIncr k =>
-    match lookup k s with
+    let s := purge s k in
+    match lookup k (data s) with
     | Some (VStr x) =>
       match parse_redis_integer x with
       | None => (s, RError (str "ERR value is not an integer or out of range"))
       | Some z =>
-        if (z + 1 <? Z.of_N I64_LIM)%Z then (insert k (VStr (show_Z (z + 1))) s, RInt (z + 1))
+        if (z + 1 <? Z.of_N I64_LIM)%Z then (put s k (VStr (show_Z (z + 1))), RInt (z + 1))
         else (s, RError (str "ERR increment or decrement would overflow"))
       end
     | Some _ => (s, WRONGTYPE)
-    | None => (insert k (VStr (show_Z 1)) s, RInt 1)
+    | None => (put s k (VStr (show_Z 1)), RInt 1)
     end
   | CAppend k x =>
-    match lookup k s with
-    | Some (VStr y) => (insert k (VStr (y ++ x)) s, nat_int (List.length (y ++ x)))
+    let s := purge s k in
+    match lookup k (data s) with
+    | Some (VStr y) => (put s k (VStr (y ++ x)), nat_int (List.length (y ++ x)))
     | Some _ => (s, WRONGTYPE)
-    | None => (insert k (VStr x) s, nat_int (List.length x))
+    | None => (put s k (VStr x), nat_int (List.length x))
     end
   | CLPush k vs =>
-    match lookup k s with
-    | Some (VList l) => (insert k (VList (rev vs ++ l)) s, nat_int (List.length (rev vs ++ l)))
+    let s := purge s k in
+    match lookup k (data s) with
+    | Some (VList l) => (put s k (VList (rev vs ++ l)), nat_int (List.length (rev vs ++ l)))
     | Some _ => (s, WRONGTYPE)
-    | None => (insert k (VList (rev vs)) s, nat_int (List.length vs))
+    | None => (put s k (VList (rev vs)), nat_int (List.length vs))
     end
   | CLRange k a b =>
-    match lookup k s with
+    match vget s k with
     | Some (VList l) => (s, RArr (map RBulk (lrange l a b)))
     | Some _ => (s, WRONGTYPE)
     | None => (s, RArr [])
     end
   | CLLen k =>
-    match lookup k s with
+    match vget s k with
     | Some (VList l) => (s, nat_int (List.length l))
     | Some _ => (s, WRONGTYPE)
     | None => (s, RInt 0)
     end
   | CHSet k ps =>
-    match lookup k s with
-    | Some (VHash h) => let '(h', n) := hset_all h ps in (insert k (VHash h') s, nat_int n)
+    let s := purge s k in
+    match lookup k (data s) with
+    | Some (VHash h) => let '(h', n) := hset_all h ps in (put s k (VHash h'), nat_int n)
     | Some _ => (s, WRONGTYPE)
-    | None => let '(h', n) := hset_all [] ps in (insert k (VHash h') s, nat_int n)
+    | None => let '(h', n) := hset_all [] ps in (put s k (VHash h'), nat_int n)
     end
   | CHGet k f =>
-    match lookup k s with
+    match vget s k with
     | Some (VHash h) => (s, match lookup f h with Some x => RBulk x | None => RNilBulk end)
     | Some _ => (s, WRONGTYPE)
     | None => (s, RNilBulk)
     end
   | CSAdd k ms =>
-    match lookup k s with
-    | Some (VSet m) => let '(m', n) := sadd_all m ms in (insert k (VSet m') s, nat_int n)
+    let s := purge s k in
+    match lookup k (data s) with
+    | Some (VSet m) => let '(m', n) := sadd_all m ms in (put s k (VSet m'), nat_int n)
     | Some _ => (s, WRONGTYPE)
-    | None => let '(m', n) := sadd_all [] ms in (insert k (VSet m') s, nat_int n)
+    | None => let '(m', n) := sadd_all [] ms in (put s k (VSet m'), nat_int n)
     end
   | CSIsMember k x =>
-    match lookup k s with
+    match vget s k with
     | Some (VSet m) => (s, RInt (if mem x m then 1 else 0))
     | Some _ => (s, WRONGTYPE)
     | None => (s, RInt 0)
     end
   | CZAdd k ps =>
-    match lookup k s with
-    | Some (VZSet z) => let '(z', n) := zadd_all z ps in (insert k (VZSet z') s, nat_int n)
+    let s := purge s k in
+    match lookup k (data s) with
+    | Some (VZSet z) => let '(z', n) := zadd_all z ps in (put s k (VZSet z'), nat_int n)
     | Some _ => (s, WRONGTYPE)
-    | None => let '(z', n) := zadd_all [] ps in (insert k (VZSet z') s, nat_int n)
+    | None => let '(z', n) := zadd_all [] ps in (put s k (VZSet z'), nat_int n)
     end
   | CZCard k =>
-    match lookup k s with
+    match vget s k with
     | Some (VZSet z) => (s, nat_int (List.length z))
     | Some _ => (s, WRONGTYPE)
     | None => (s, RInt 0)
@@ -421,9 +462,9 @@ Definition mhandle := handle_frame store mcmd mdecode mexec mkind CGet mstub_rep
 Definition mdispatch := dispatch store mcmd mexec mkind CGet mstub_reply.
 Definition mon_read := on_read mutf8_ok store mcmd mdecode mexec mfast_get mfast_set mbatch_get mbatch_set
                                mkind CGet mstub_reply.
-Definition mrun (g : cfg) (reads : list bytes) : mconn := fold_left (mon_read g) reads (conn_init store mcmd []).
+Definition mrun (g : cfg) (reads : list bytes) : mconn := fold_left (mon_read g) reads (conn_init store mcmd m0).
 Definition mreference (stream : bytes) : list resp :=
-  reference store mcmd mdecode mexec mkind CGet mstub_reply [] stream.
+  reference store mcmd mdecode mexec mkind CGet mstub_reply m0 stream.
 
 (* ------------------------------------------------------------------ two clients over the mini backend (C05) *)
 Notation msys := (sys store mcmd) (only parsing).
@@ -435,11 +476,11 @@ Definition mget_reply := get_reply store mcmd mexec CGet.
 Definition frame (args : list bytes) : resp := RArr (map RBulk args).
 
 (* the value a key holds *)
-Definition value_of (s : store) (k : bytes) : option mval := lookup k s.
+Definition value_of (s : store) (k : bytes) : option mval := vget s k.
 (* KnownClass of finding C05-watch-nonstring: the watched key holds a non-string value both when
    WATCH is issued (state sW) and when EXEC is issued (state sE) *)
 Definition holds_nonstring (s : store) (k : bytes) : bool :=
-  match lookup k s with
+  match vget s k with
   | Some (VStr _) | None => false
   | Some _ => true
   end.
